@@ -1,5 +1,394 @@
-import NimaVerif.Model.Edit
-/-! # C19 — placeholder until the theorems are in. -/
+import NimaVerif.Lemmas.EditScoped
+import NimaVerif.Lemmas.AttrWalk
+/-!
+# C19 — edits compose predictably: repeatable, reversible, order-independent
+
+Laws of the edit model (`Model/Edit.lean`), for every document, path text and value. The output
+text is a function of the document (the renderer takes nothing else), so equal documents give equal
+texts; the identity counter `next` is not part of what is rendered, which is why "up to `next`"
+appears where an operation allocates.
+
+* §1 the algebra underneath: a write by identity is idempotent; writes to different objects commute;
+* §2 `set p v ; set p v = set p v` — proved for existing plain bindings, fresh single segments and
+  attrpath leaves; the unrestricted statement is **false** when `v` is an identifier that names a
+  sibling: the second `set` goes *through* the reference it has just written (`cex_set_set_ident`);
+* §3 `set p v ; rm p = id` for a fresh single segment (append-then-erase-last), up to `next`; and
+  `rm p ; set p v₀`: the name is rebound (last, without its trivia) — the tree, not the document;
+* §4 `set p v ; set q w = set q w ; set p v` for distinct existing plain bindings; false when a
+  current value is a reference to the other binding (`cex_set_comm_ident`);
+* §5 scoped `set @k v ; rm @k` on a document without let layers: the layer is created, then pruned.
+  What comes back is `d` except `trailing` (`restoredTrailing`), the `rstripped` flag and `next`; the
+  exact statement, the cases where that is `d` again, and the two ways it is not.
+-/
 namespace Nima.C19
-theorem updBind_idem (id : Nat) (v : Node) (d : Doc) : (d.updBind id v).next = d.next := rfl
+
+open Node
+
+/-! ## 1. The algebra of writes by identity -/
+
+/-- `binding.value = v` twice is once — for every document, unconditionally. -/
+theorem updBind_idem (id : Nat) (v : Node) (d : Doc) : (d.updBind id v).updBind id v = d.updBind id v :=
+  Doc.updBind_idem id v d
+
+/-- A later write to the same object wins, whatever was written before. -/
+theorem updBind_absorb (id : Nat) (v w : Node) (d : Doc) :
+    (d.updBind id v).updBind id w = d.updBind id w :=
+  Doc.updBind_absorb id v w d
+
+/-- Writes to two different Binding objects commute, provided neither written value contains the
+    other object (freshly parsed values never do: their objects are new). -/
+theorem updBind_comm (i j : Nat) (v w : Node) (hij : i ≠ j)
+    (hv : Node.hasBind j v = false) (hw : Node.hasBind i w = false) (d : Doc) :
+    (d.updBind j w).updBind i v = (d.updBind i v).updBind j w :=
+  Doc.updBind_comm i j v w hij hv hw d
+
+/-- Two in-place mutations of one AttributeSet object are one mutation by the composite (the first
+    keeps the object's identity). -/
+theorem updSet_fuse (sid : Nat) (f g : Node → Node)
+    (hf : ∀ vs o m r, (f (.set sid vs o m r)).setSid? = some sid) (d : Doc) :
+    (d.updSet sid f).updSet sid g = d.updSet sid (fun x => g (f x)) :=
+  Doc.updSet_fuse sid f g hf d
+
+/-- Mutations of two different AttributeSet objects commute when each commutes with the other update
+    on the object it is applied to. -/
+theorem updSet_comm (s t : Nat) (f g : Node → Node) (hst : s ≠ t)
+    (hf : ∀ vs o m r, f (Node.updSet t g (.set s vs o m r)) = Node.updSet t g (f (.set s vs o m r)))
+    (hg : ∀ vs o m r, g (Node.updSet s f (.set t vs o m r)) = Node.updSet s f (g (.set t vs o m r)))
+    (n : Node) :
+    Node.updSet s f (Node.updSet t g n) = Node.updSet t g (Node.updSet s f n) :=
+  Nima.updSet_comm s t f g hst hf hg n
+
+/-- An idempotent, identity-keeping mutation is idempotent on every tree. -/
+theorem updSet_idem (sid : Nat) (f : Node → Node)
+    (hf : ∀ vs o m r, (f (.set sid vs o m r)).setSid? = some sid)
+    (hff : ∀ vs o m r, f (f (.set sid vs o m r)) = f (.set sid vs o m r)) (n : Node) :
+    Node.updSet sid f (Node.updSet sid f n) = Node.updSet sid f n :=
+  Nima.updSet_idem sid f hf hff n
+
+/-- The same two laws for whole documents. -/
+theorem doc_updSet_idem (sid : Nat) (f : Node → Node)
+    (hf : ∀ vs o m r, (f (.set sid vs o m r)).setSid? = some sid)
+    (hff : ∀ vs o m r, f (f (.set sid vs o m r)) = f (.set sid vs o m r)) (d : Doc) :
+    (d.updSet sid f).updSet sid f = d.updSet sid f :=
+  Doc.updSet_idem sid f hf hff d
+
+theorem doc_updSet_comm (s t : Nat) (f g : Node → Node) (hst : s ≠ t)
+    (hf : ∀ vs o m r, f (Node.updSet t g (.set s vs o m r)) = Node.updSet t g (f (.set s vs o m r)))
+    (hg : ∀ vs o m r, g (Node.updSet s f (.set t vs o m r)) = Node.updSet s f (g (.set t vs o m r)))
+    (d : Doc) :
+    (d.updSet t g).updSet s f = (d.updSet s f).updSet t g :=
+  Doc.updSet_comm s t f g hst hf hg d
+
+/-! ## 2. Idempotence of `set` -/
+
+/-- FULL statement: a successful `set p v`, repeated, yields the same document. -/
+def set_set_idem_full : Prop :=
+  ∀ (d : Doc) (p : Text) (v : Node), (setValue p (.one v) d).1 = .ok () →
+    (setValue p (.one v) (setValue p (.one v) d).2).2 = (setValue p (.one v) d).2
+
+/-- `{ a = 1; b = 2; }` -/
+def twoBindings : Doc :=
+  { target := .set 1 [.bind 2 "a".toList false (.atom "1".toList) [] [],
+                      .bind 3 "b".toList false (.atom "2".toList) [] []] [] true false
+    next := 4 }
+
+/-- which top-level values of the target are identifier references -/
+def identMask (d : Doc) : List (Option Bool) :=
+  d.target.setValues.map fun n => n.bindValue?.map Node.isIdent
+
+/-- Counterexample (not yet a recorded finding; reported to the lead): `set a b` on `{ a = 1; b = 2; }`
+    gives `{ a = b; b = 2; }`; the same command again finds `a`'s value to be the identifier `b`,
+    follows it to the sibling binding and overwrites **that**: `{ a = b; b = b; }`
+    (`_set_value_in_attrset`: `sibling_binding.value = value_expr`). Reproduced on the implementation. -/
+theorem cex_set_set_ident : ¬ set_set_idem_full := by
+  intro h
+  have := congrArg identMask (h twoBindings "a".toList (.ident "b".toList) (by decide))
+  revert this
+  decide
+
+/-- The general statement once the identifier case is taken out: **not proved** (stated so that the
+    gap is explicit). It needs, beyond the three cases proved below, the stability of
+    `resolveParentWalk` / `setAttrpathWalk` / `resolveIdent` under the first `set`'s writes, for which
+    the unique-identity invariant of parser-built documents has to be carried through nested sets. -/
+def set_set_idem_general : Prop :=
+  ∀ (d : Doc) (p : Text) (v : Node), d.Fresh → v.isIdent = false →
+    (setValue p (.one v) d).1 = .ok () →
+    ∃ n, (setValue p (.one v) (setValue p (.one v) d).2).2 = { (setValue p (.one v) d).2 with next := n }
+
+/-- PARTIAL (existing plain binding): old and new value are not identifier references. -/
+theorem set_set_idem_existing (d : Doc) (p k : Text) (v : Node) (bid : Nat) (nm : Text) (ne : Bool)
+    (val : Node) (bf af : Payload)
+    (hnt : d.noTarget = none) (hsp : splitScopeNpath p = .ok none)
+    (hf : formatNPath currentAnchor p = .ok [k])
+    (hr : findAttrpathRoot d.target.setValues k = none)
+    (hb : findBinding d.target.setValues k = some (.bind bid nm ne val bf af))
+    (hval : val.isIdent = false) (hv : v.isIdent = false) :
+    setValue p (.one v) (setValue p (.one v) d).2 = setValue p (.one v) d :=
+  Nima.set_set_idem_existing d p k v bid nm ne val bf af hnt hsp hf hr hb hval hv
+
+/-- PARTIAL (fresh single segment): the second `set` finds the binding the first appended and writes
+    the same value; even `next` agrees. `d.hasBind d.next = false`: identities are allocated above
+    everything in the document (`Doc.Fresh` implies it). -/
+theorem set_set_idem_fresh (d : Doc) (p k : Text) (v : Node) (sid : Nat)
+    (hnt : d.noTarget = none) (hsp : splitScopeNpath p = .ok none)
+    (hf : formatNPath currentAnchor p = .ok [k])
+    (hs : d.target.setSid? = some sid)
+    (hr : findAttrpathRoot d.target.setValues k = none)
+    (hb : findBinding d.target.setValues k = none)
+    (hfresh : d.hasBind d.next = false) (hv : v.isIdent = false) :
+    setValue p (.one v) (setValue p (.one v) d).2 = setValue p (.one v) d :=
+  Nima.set_set_idem_fresh d p k v sid hnt hsp hf hs hr hb hfresh hv
+
+/-- PARTIAL (attrpath leaf `a.b.c`): no condition on the value at all; `hids`: the leaf object is not
+    also one of the bindings on the way to it (identities unique). -/
+theorem set_set_idem_attrpath (d : Doc) (p : Text) (segs : List Text) (v : Node) (lid : Nat) (nm : Text)
+    (ne : Bool) (val : Node) (bf af : Payload) (pre : List (Node × Node)) (par : Node)
+    (hnt : d.noTarget = none) (hsp : splitScopeNpath p = .ok none)
+    (hf : formatNPath currentAnchor p = .ok segs)
+    (hw : walkAttrpathStack d.target segs false false =
+      .ok (some (pre ++ [(par, .bind lid nm ne val bf af)])))
+    (hids : ∀ pb ∈ pre, pb.2.bindId? ≠ some lid) :
+    setValue p (.one v) (setValue p (.one v) d).2 = setValue p (.one v) d :=
+  Nima.set_set_idem_attrpath d p segs v lid nm ne val bf af pre par hnt hsp hf hw hids
+
+theorem fresh_hasBind {d : Doc} (h : d.Fresh) : d.hasBind d.next = false :=
+  (h.not_has d.next (Nat.le_refl _)).1
+
+/-! ## 3. `set` then `rm` of a fresh single segment restores the document -/
+
+/-- Append-then-erase-last: whether the target's `attrpath_order` is empty or not, `rm p` after
+    `set p v` gives back `d`; only the identity counter has moved. -/
+theorem set_rm_restores (d : Doc) (p k : Text) (v : Node) (sid : Nat)
+    (hnt : d.noTarget = none) (hsp : splitScopeNpath p = .ok none)
+    (hf : formatNPath currentAnchor p = .ok [k])
+    (hs : d.target.setSid? = some sid)
+    (hr : findAttrpathRoot d.target.setValues k = none)
+    (hb : findBinding d.target.setValues k = none)
+    (hfresh : d.hasBind d.next = false) :
+    removeValue p (setValue p (.one v) d).2 = (.ok (), { d with next := d.next + 1 }) :=
+  set_rm_restores_fresh d p k v sid hnt hsp hf hs hr hb hfresh
+
+/-- `rm k` then `set k val` with the removed value (DESIGN: "restores the tree", not the document):
+    the name is bound to the value again — by a NEW Binding object at the end of `values` (and of a
+    non-empty `attrpath_order`), with empty trivia; every other binding is where it was. `huniq`: no
+    second binding spelled `k` is left (decidable; else the second `set` would overwrite that one). -/
+theorem rm_set_rebinds (d : Doc) (p k : Text) (bid : Nat) (nm : Text) (ne : Bool)
+    (val : Node) (bf af : Payload) (sid : Nat) (vs o : List Node) (m r : Bool)
+    (hnt : d.noTarget = none) (hsp : splitScopeNpath p = .ok none)
+    (hf : formatNPath currentAnchor p = .ok [k])
+    (ht : d.target = .set sid vs o m r)
+    (hr : findAttrpathRoot vs k = none)
+    (hb : findBinding vs k = some (.bind bid nm ne val bf af))
+    (hone : d.sidElsewhere sid = false)
+    (huniq : findBinding (vs.eraseP fun n => n.bindId? == some bid) k = none) :
+    setValue p (.one val) (removeValue p d).2 =
+      (.ok (), { d with
+        target := .set sid ((vs.eraseP fun n => n.bindId? == some bid) ++ [.bind d.next k false val [] []])
+          (if (if o.isEmpty then o else o.eraseP fun n => n.isBind && n.bindId? == some bid).isEmpty
+           then (if o.isEmpty then o else o.eraseP fun n => n.isBind && n.bindId? == some bid)
+           else (if o.isEmpty then o else o.eraseP fun n => n.isBind && n.bindId? == some bid) ++
+             [.bind d.next k false val [] []]) m r
+        next := d.next + 1 }) :=
+  Nima.rm_set_rebinds d p k bid nm ne val bf af sid vs o m r hnt hsp hf ht hr hb hone huniq
+
+/-! ## 4. `set`s on distinct existing bindings commute -/
+
+/-- FULL statement: for two different existing top-level bindings the order of two `set`s does not
+    matter. -/
+def set_comm_full : Prop :=
+  ∀ (d : Doc) (p q kp kq : Text) (v w bp bq : Node),
+    d.noTarget = none →
+    splitScopeNpath p = .ok none → formatNPath currentAnchor p = .ok [kp] →
+    splitScopeNpath q = .ok none → formatNPath currentAnchor q = .ok [kq] →
+    findBinding d.target.setValues kp = some bp → findBinding d.target.setValues kq = some bq →
+    bp.bindId? ≠ bq.bindId? →
+    (setValue q (.one w) (setValue p (.one v) d).2).2 = (setValue p (.one v) (setValue q (.one w) d).2).2
+
+/-- `{ a = b; b = 1; }` -/
+def refDoc : Doc :=
+  { target := .set 1 [.bind 2 "a".toList false (.ident "b".toList) [] [],
+                      .bind 3 "b".toList false (.atom "1".toList) [] []] [] true false
+    next := 4 }
+
+/-- which top-level values of the target are the atom `7` -/
+def sevenMask (d : Doc) : List Bool :=
+  d.target.setValues.map fun n => match n.bindValue? with
+    | some (.atom t) => t == "7".toList
+    | _ => false
+
+/-- Counterexample: on `{ a = b; b = 1; }`, `set a 7` writes through the reference to `b`; so
+    `set a 7 ; set b 8` ends with `b = 8` and `set b 8 ; set a 7` with `b = 7`. This is C11's
+    territory ("different paths" that resolve to the same definition are not different). -/
+theorem cex_set_comm_ident : ¬ set_comm_full := by
+  intro h
+  have := congrArg sevenMask (h refDoc "a".toList "b".toList "a".toList "b".toList
+    (.atom "7".toList) (.atom "8".toList) _ _ rfl (by decide) (by decide) (by decide) (by decide) rfl rfl
+    (by decide))
+  revert this
+  decide
+
+/-- PARTIAL: neither current value is an identifier reference; the two Binding objects are different
+    and neither new value contains the other object. Both orders give `updBind bp v ∘ updBind bq w`. -/
+theorem set_comm (d : Doc) (p q kp kq : Text) (v w : Node)
+    (bp : Nat) (nmp : Text) (nep : Bool) (valp : Node) (bfp afp : Payload)
+    (bq : Nat) (nmq : Text) (neq : Bool) (valq : Node) (bfq afq : Payload)
+    (hnt : d.noTarget = none)
+    (hspp : splitScopeNpath p = .ok none) (hfp : formatNPath currentAnchor p = .ok [kp])
+    (hspq : splitScopeNpath q = .ok none) (hfq : formatNPath currentAnchor q = .ok [kq])
+    (hrp : findAttrpathRoot d.target.setValues kp = none)
+    (hrq : findAttrpathRoot d.target.setValues kq = none)
+    (hbp : findBinding d.target.setValues kp = some (.bind bp nmp nep valp bfp afp))
+    (hbq : findBinding d.target.setValues kq = some (.bind bq nmq neq valq bfq afq))
+    (hvalp : valp.isIdent = false) (hvalq : valq.isIdent = false)
+    (hne : bp ≠ bq) (hv : Node.hasBind bq v = false) (hw : Node.hasBind bp w = false) :
+    setValue q (.one w) (setValue p (.one v) d).2 = setValue p (.one v) (setValue q (.one w) d).2 := by
+  obtain ⟨h1, h2⟩ := set_comm_existing d p q kp kq v w bp nmp nep valp bfp afp bq nmq neq valq bfq afq
+    hnt hspp hfp hspq hfq hrp hrq hbp hbq hvalp hvalq hne hv hw
+  rw [h1, h2]
+
+/-! ## 5. Scoped `set @k v ; rm @k` on a document without let layers -/
+
+/-- The exact result: the layer is created, then pruned. `target.before` / `target.after` travel
+    into the layer and come back; the scope, the layer trivia and the stack are empty again; what
+    differs from `d` is `trailing` (SPEC `restoredTrailing`: the final linebreak / empty-line tokens
+    are popped, a non-empty `target.after` is appended once more, an emptied list is refilled from
+    the original), the `rstripped` flag (the returned text is `rstrip("\n")`-ed iff the target has
+    leading trivia) and `next`. -/
+theorem scoped_set_rm (d : Doc) (p rest k : Text) (v : Node)
+    (hnt : d.noTarget = none) (hsp : splitScopeNpath p = .ok (some (1, rest)))
+    (hf : formatNPath currentAnchor rest = .ok [k])
+    (hnl : d.NoLayers) (hpe : pathExistsInAttrset d.target [k] = false) (hfr : d.Fresh)
+    (hv : Node.hasSet (d.next + 2) v = false) :
+    removeValue p (setValue p (.one v) d).2 = (.ok (), { d with
+      trailing := restoredTrailing d.trailing d.tAfter,
+      rstripped := !d.tBefore.isEmpty, next := d.next + 3 }) :=
+  Nima.scoped_set_rm d p rest k v hnt hsp hf hnl hpe hfr hv
+
+/-- FULL statement: the document is restored (up to `next`). -/
+def scoped_set_rm_restores_full : Prop :=
+  ∀ (d : Doc) (p rest k : Text) (v : Node),
+    d.noTarget = none → splitScopeNpath p = .ok (some (1, rest)) →
+    formatNPath currentAnchor rest = .ok [k] → d.NoLayers →
+    pathExistsInAttrset d.target [k] = false → d.Fresh → d.rstripped = false →
+    Node.hasSet (d.next + 2) v = false →
+    (removeValue p (setValue p (.one v) d).2).2 = { d with next := d.next + 3 }
+
+/-- Counterexample 1 (root cause of the open findings C19-with-body-newline and
+    C19-lambda-with-body-newline, and of a lost final newline on `# c⏎{ }⏎`): the target has leading
+    trivia (the line break after `with pkgs;`, or a comment); after `set @zz 7 ; rm @zz` the text is
+    `rstrip("\n")`-ed (`rstripped = true`). -/
+theorem cex_scoped_rstripped : ¬ scoped_set_rm_restores_full := by
+  intro h
+  have := congrArg Doc.rstripped (h { tBefore := [0], trailing := [0] } "@zz".toList "zz".toList "zz".toList
+    (.atom "7".toList) rfl (by decide) (by decide) (by decide) rfl (by decide) rfl rfl)
+  rw [scoped_set_rm _ _ "zz".toList "zz".toList _ rfl (by decide) (by decide) (by decide) rfl (by decide) rfl]
+    at this
+  revert this
+  decide
+
+/-- Counterexample 2: a file that ends `… # comment⏎`: `trailing = [comment, linebreak]` comes back as
+    `[comment]` (the `while source.trailing[-1] in (linebreak, empty_line): pop()` loop). -/
+theorem cex_scoped_trailing : ¬ scoped_set_rm_restores_full := by
+  intro h
+  have := congrArg Doc.trailing (h { trailing := [2, 0] } "@zz".toList "zz".toList "zz".toList
+    (.atom "7".toList) rfl (by decide) (by decide) (by decide) rfl (by decide) rfl rfl)
+  rw [scoped_set_rm _ _ "zz".toList "zz".toList _ rfl (by decide) (by decide) (by decide) rfl (by decide) rfl]
+    at this
+  revert this
+  decide
+
+/-- PARTIAL: no leading trivia on the target, and `trailing` is a fixed point of `restoredTrailing`
+    (decidable; see the two lemmas below for when it is). Then `d` comes back, up to `next`. -/
+theorem scoped_set_rm_restores_partial (d : Doc) (p rest k : Text) (v : Node)
+    (hnt : d.noTarget = none) (hsp : splitScopeNpath p = .ok (some (1, rest)))
+    (hf : formatNPath currentAnchor rest = .ok [k])
+    (hnl : d.NoLayers) (hpe : pathExistsInAttrset d.target [k] = false) (hfr : d.Fresh)
+    (hrs : d.rstripped = false) (hv : Node.hasSet (d.next + 2) v = false)
+    (hbefore : d.tBefore = [])
+    (htr : restoredTrailing d.trailing d.tAfter = d.trailing) :
+    removeValue p (setValue p (.one v) d).2 = (.ok (), { d with next := d.next + 3 }) := by
+  rw [scoped_set_rm d p rest k v hnt hsp hf hnl hpe hfr hv, htr, hbefore]
+  simp [hrs]
+
+/-- `trailing` made of layout tokens only (the usual "file ends with a newline") is restored … -/
+theorem restoredTrailing_layout (t : Payload) (h : ∀ x ∈ t, x = 0 ∨ x = 1) : restoredTrailing t [] = t :=
+  Nima.restoredTrailing_layout t h
+
+/-- … and so is a `trailing` that does not end in a layout token (or is empty). -/
+theorem restoredTrailing_no_layout_tail (t : Payload)
+    (h : ∀ x, t.getLast? = some x → x ≠ 0 ∧ x ≠ 1) : restoredTrailing t [] = t :=
+  Nima.restoredTrailing_no_layout_tail t h
+
+/-! ## Non-vacuity: three bindings, an attrpath family, a let layer -/
+
+/-- `let x = 0; in { a = 1; b = 2; c = a; s.p = 1; s.q = 2; }` -/
+def exDoc : Doc :=
+  { target := .set 1
+      [ .bind 2 "a".toList false (.atom "1".toList) [5] [6],
+        .bind 3 "b".toList false (.atom "2".toList) [] [],
+        .bind 4 "c".toList false (.ident "a".toList) [] [7],
+        .bind 8 "s".toList true
+          (.set 9 [.bind 10 "p".toList false (.atom "1".toList) [] [],
+                   .bind 11 "q".toList false (.atom "2".toList) [] []] [] true false) [] [] ]
+      [ .bind 2 "a".toList false (.atom "1".toList) [5] [6],
+        .bind 3 "b".toList false (.atom "2".toList) [] [],
+        .bind 4 "c".toList false (.ident "a".toList) [] [7],
+        .entry ["s".toList, "p".toList] (.bind 10 "p".toList false (.atom "1".toList) [] []) none none,
+        .entry ["s".toList, "q".toList] (.bind 11 "q".toList false (.atom "2".toList) [] []) none none ]
+      true false
+    scope := [.bind 12 "x".toList false (.atom "0".toList) [] []]
+    stBodyBefore := [0]
+    trailing := [0]
+    next := 13 }
+
+/-- the same set without the let layer, for the scoped law -/
+def exDocNoLet : Doc := { exDoc with scope := [], stBodyBefore := [] }
+
+example : exDoc.Fresh ∧ exDocNoLet.Fresh ∧ exDocNoLet.NoLayers := by decide
+
+/-- idempotence, existing binding `a` -/
+example : setValue "a".toList (.one (.atom "7".toList)) (setValue "a".toList (.one (.atom "7".toList)) exDoc).2 =
+    setValue "a".toList (.one (.atom "7".toList)) exDoc :=
+  set_set_idem_existing exDoc _ "a".toList _ 2 _ _ _ _ _ rfl (by decide) (by decide) rfl rfl rfl rfl
+
+/-- idempotence, fresh `zz` (the target's order is non-empty) -/
+example : setValue "zz".toList (.one (.atom "7".toList)) (setValue "zz".toList (.one (.atom "7".toList)) exDoc).2 =
+    setValue "zz".toList (.one (.atom "7".toList)) exDoc :=
+  set_set_idem_fresh exDoc _ "zz".toList _ 1 rfl (by decide) (by decide) rfl rfl rfl (by decide) rfl
+
+/-- idempotence, attrpath leaf `s.q` -/
+example : setValue "s.q".toList (.one (.ident "a".toList)) (setValue "s.q".toList (.one (.ident "a".toList)) exDoc).2 =
+    setValue "s.q".toList (.one (.ident "a".toList)) exDoc :=
+  set_set_idem_attrpath exDoc _ ["s".toList, "q".toList] _ 11 _ _ _ _ _
+    [(exDoc.target, .bind 8 "s".toList true
+          (.set 9 [.bind 10 "p".toList false (.atom "1".toList) [] [],
+                   .bind 11 "q".toList false (.atom "2".toList) [] []] [] true false) [] [])]
+    (.set 9 [.bind 10 "p".toList false (.atom "1".toList) [] [],
+             .bind 11 "q".toList false (.atom "2".toList) [] []] [] true false)
+    rfl (by decide) (by decide) rfl (by simp [Node.bindId?])
+
+/-- reversibility, fresh `"z z"` -/
+example : removeValue "\"z z\"".toList (setValue "\"z z\"".toList (.one (.atom "7".toList)) exDoc).2 =
+    (.ok (), { exDoc with next := 14 }) :=
+  set_rm_restores exDoc _ "\"z z\"".toList _ 1 rfl (by decide) (by decide) rfl rfl rfl (by decide)
+
+/-- rm then set of the removed value: `b = 2` comes back, last -/
+example : ∃ d', setValue "b".toList (.one (.atom "2".toList)) (removeValue "b".toList exDoc).2 = (.ok (), d') ∧
+    d'.target.setValues.length = 4 ∧
+    (d'.target.setValues.getLast?.bind Node.bindName?) = some "b".toList :=
+  ⟨_, rm_set_rebinds exDoc _ "b".toList 3 _ _ _ _ _ 1 _ _ _ _ rfl (by decide) (by decide) rfl rfl rfl
+    (by decide) rfl, rfl, rfl⟩
+
+/-- commutation, `a` and `b` -/
+example : setValue "b".toList (.one (.atom "8".toList)) (setValue "a".toList (.one (.atom "7".toList)) exDoc).2 =
+    setValue "a".toList (.one (.atom "7".toList)) (setValue "b".toList (.one (.atom "8".toList)) exDoc).2 :=
+  set_comm exDoc _ _ "a".toList "b".toList _ _ 2 _ _ _ _ _ 3 _ _ _ _ _ rfl (by decide) (by decide) (by decide)
+    (by decide) rfl rfl rfl rfl rfl rfl (by decide) rfl rfl
+
+/-- scoped reversibility on the set without a let: `trailing = [linebreak]` is restored -/
+example : removeValue "@zz".toList (setValue "@zz".toList (.one (.atom "7".toList)) exDocNoLet).2 =
+    (.ok (), { exDocNoLet with next := 16 }) :=
+  scoped_set_rm_restores_partial exDocNoLet _ "zz".toList "zz".toList _ rfl (by decide) (by decide) (by decide)
+    rfl (by decide) rfl rfl rfl (by decide)
+
 end Nima.C19
